@@ -89,8 +89,9 @@ func swapCase(s string) string {
 }
 
 func newFatRun(cfg fatCfg, sha, raw bool) (*fatRun, map[string]any, error) {
-	r := &fatRun{cfg: cfg, names: fatNameSets[cfg.Names], rev: map[string]string{}, sizeU: map[string]int{}, sha: sha, raw: raw}
-	for k, v := range r.names {
+	r := &fatRun{cfg: cfg, names: map[string]string{}, rev: map[string]string{}, sizeU: map[string]int{}, sha: sha, raw: raw}
+	for k, v := range fatNameSets[cfg.Names] {
+		r.names[k] = v // a private copy: a rename onto an 8.3 alias changes the spelling of that path (see do)
 		r.rev[v] = k
 	}
 	devSize := cfg.Start + cfg.Size + 1<<20
@@ -320,6 +321,30 @@ func (r *fatRun) real(p string, variant bool) string {
 	return n
 }
 
+// alias returns the path of an existing entry with its last element replaced by the entry's 8.3 alias, as
+// the independent parser reads it from the directory ("" when the entry has no separate alias): the
+// library must treat the alias and the long name as the same file.
+func (r *fatRun) alias(p string) string {
+	if r.cfg.Size > 5<<20 {
+		return ""
+	}
+	v, err := rawfat.Parse(r.vol.Dev, r.cfg.Start, r.cfg.Size)
+	if err != nil {
+		return ""
+	}
+	want := "/" + strings.Trim(r.names[p], "/")
+	for _, e := range v.Entries {
+		if strings.EqualFold(e.Path, want) || strings.EqualFold("/"+strings.Trim(e.Path, "/"), want) {
+			base := want[strings.LastIndex(want, "/")+1:]
+			if e.Short == "" || strings.EqualFold(e.Short, base) {
+				return ""
+			}
+			return strings.TrimPrefix(want[:strings.LastIndex(want, "/")+1]+e.Short, "/")
+		}
+	}
+	return ""
+}
+
 // do executes one call and returns its event.
 func (r *fatRun) do(op fatOp) map[string]any {
 	if op.Tag > r.maxTag {
@@ -330,6 +355,7 @@ func (r *fatRun) do(op fatOp) map[string]any {
 	var same []int
 	r.step++
 	variant := r.step%2 == 0 && r.cfg.Names != "tricky"
+	aliasUsed := false
 	var err error
 	panicked := fsx.Catch(func() {
 		switch op.A {
@@ -408,13 +434,34 @@ func (r *fatRun) do(op fatOp) map[string]any {
 				r.sizeU[op.P] = 0
 			}
 		case "Rename":
-			err = fs.Rename(r.real(op.P, false), r.real(op.Q, false))
+			dst := r.real(op.Q, false)
+			if r.step%3 == 2 {
+				// an existing destination addressed by its 8.3 alias
+				if a := r.alias(op.Q); a != "" {
+					dst = a
+					aliasUsed = true
+				}
+			}
+			err = fs.Rename(r.real(op.P, false), dst)
+			if err == nil && aliasUsed {
+				// the file now carries the name it was renamed to: the alias spelling
+				delete(r.rev, r.names[op.Q])
+				r.names[op.Q] = dst
+				r.rev[dst] = op.Q
+			}
 			if err == nil {
 				r.sizeU[op.Q] = r.sizeU[op.P]
 				delete(r.sizeU, op.P)
 			}
 		case "Remove":
-			err = fs.Remove(r.real(op.P, variant))
+			nm := r.real(op.P, variant)
+			if r.step%3 == 2 {
+				if a := r.alias(op.P); a != "" {
+					nm = a
+					aliasUsed = true
+				}
+			}
+			err = fs.Remove(nm)
 			if err == nil {
 				delete(r.sizeU, op.P)
 			}
@@ -469,6 +516,7 @@ func (r *fatRun) do(op fatOp) map[string]any {
 		res = "panic"
 	}
 	ev := r.event(op, res, panicked, same)
+	ev["alias"] = aliasUsed
 	if err != nil {
 		ev["errtext"] = err.Error()
 	}
